@@ -110,3 +110,63 @@ func VerifH_C01_UpsideDownMerge() {
 	rt.Cover(hadDoc && !old[0] && !old[1] && !old[2] && old[3] && cur[3], "old-version-without-terms-with-stored-field")
 	rt.Cover(hadDoc && old[0] && !cur[0] && cur[1], "term-replaced")
 }
+
+// VerifH_C01_UpsideDownDelete: the row arithmetic of an upsidedown delete (deleteSingle): for every
+// version a document can have (any subset of the vocabulary of VerifH_C01_UpsideDownMerge, as its
+// back index row records it) the rows to delete are exactly the keys of that version plus the back
+// index row, each once - nothing of the deleted document stays behind for a later re-creation to
+// pick up.
+func VerifH_C01_UpsideDownDelete() {
+	doc := []byte("d")
+	type item struct {
+		stored bool
+		term   string
+		field  uint16
+	}
+	vocab := []item{{false, "x", 0}, {false, "y", 0}, {false, "x", 1}, {true, "", 0}, {true, "", 1}, {true, "", 2}}
+	keyOf := func(it item) string {
+		if it.stored {
+			return string(NewStoredRow(doc, it.field, nil, 't', nil).Key())
+		}
+		return string(NewTermFrequencyRow([]byte(it.term), it.field, doc, 0, 0).Key())
+	}
+	had := make([]bool, len(vocab))
+	termsByField := map[uint16][]string{}
+	var stored []*BackIndexStoreEntry
+	for i, it := range vocab {
+		had[i] = rt.Choice("has", 2) == 1
+		if !had[i] {
+			continue
+		}
+		if it.stored {
+			stored = append(stored, &BackIndexStoreEntry{Field: proto.Uint32(uint32(it.field))})
+		} else {
+			termsByField[it.field] = append(termsByField[it.field], it.term)
+		}
+	}
+	var entries []*BackIndexTermsEntry
+	for f := uint16(0); f < 2; f++ {
+		if ts := termsByField[f]; len(ts) > 0 {
+			entries = append(entries, &BackIndexTermsEntry{Field: proto.Uint32(uint32(f)), Terms: ts})
+		}
+	}
+	back := NewBackIndexRow(doc, entries, stored)
+	udc := &UpsideDownCouch{}
+	rows := udc.deleteSingle("d", back, nil)
+	seen := map[string]int{}
+	for _, r := range rows {
+		seen[string(r.Key())]++
+	}
+	n := 0
+	for i, it := range vocab {
+		want := 0
+		if had[i] {
+			want = 1
+			n++
+		}
+		rt.Assert(seen[keyOf(it)] == want, "exactly the rows of the deleted version are deleted, each once")
+	}
+	rt.Assert(seen[string(back.Key())] == 1, "the back index row is deleted")
+	rt.Assert(len(rows) == n+1, "nothing else is deleted")
+	rt.Cover(had[3] && had[4] && had[5], "three-stored-fields")
+}
